@@ -579,7 +579,7 @@ Definition as_step (s : sx) : option (list (Z * ctor_res) * list Z) :=
   | _ => None
   end.
 
-Definition run_C12 (c : sx) : sx :=
+Definition run_C12_base (c : sx) : sx :=
   match c with
   | L [A 0; A orient; dn; A align; pad; L cs; A avail; A start; A fuel] =>
       run_split divide orient dn align pad cs avail start fuel
